@@ -53,6 +53,10 @@ def induced_failures(seed):
             out.append({"id": f"rclashdry{v}-{d}", "names": ["x/a", "x/a/b", "z"], "secs": [1_700_000_000, 1_600_000_000, 5],
                         "src": [[], [1, 1, 0], [2, 1, 0]], "dst": [[3, 2, 0], [], []], "pats": pats, "del": dl, "dry": True,
                         "dir": d, "jobs": 1, "induced": "clash"})
+    # the transport fails exactly when the stale files are to be removed on the remote side
+    out.append({"id": "sshfail-delete-push", "names": ["keep", "stale1", "d/stale2"], "secs": [1_700_000_000, 1_600_000_000, 5],
+                "src": [[1, 1, 0], [], []], "dst": [[1, 1, 0], [2, 2, 0], [3, 2, 0]], "pats": [], "del": True,
+                "dry": False, "dir": "push", "jobs": 1, "induced": "ssh", "env": {"COPIA_FAKE_SSH_FAIL_RE": "xargs -0 rm"}})
     for k, d in enumerate(["push", "pull"]):
         out.append({"id": f"sshfail-{d}", "names": ["ok1", "victim", "ok2", "other"], "secs": [1_700_000_000, 1_600_000_000, 5],
                     "src": [[1, 1, 0], [2, 1, 0], [3, 1, 1], []], "dst": [[], [1, 2, 0], [], [3, 2, 0]], "pats": [], "del": False,
